@@ -132,7 +132,80 @@ fn loaded(r: Result<Schema, String>, keep: &mut Vec<(String, Schema)>, label: &s
     }
 }
 
+/// a schema file of the repository (T binding): load it, translate it with the library in every direction, reload
+fn run_file(case: &J) -> R<J> {
+    let path = case["file"].as_str().ok_or("file")?;
+    let text = std::fs::read_to_string(path).map_err(|e| format!("{path}: {e}"))?;
+    let is_json = case["syntax"] == "json";
+    let mut keep: Vec<(String, Schema)> = vec![];
+    let mut steps = Map::new();
+    let frag = if is_json {
+        steps.insert("S".into(), loaded(Schema::from_json_str(&text).map_err(short), &mut keep, "S"));
+        SchemaFragment::from_json_str(&text).map_err(short)
+    } else {
+        steps.insert("S".into(), loaded(Schema::from_cedarschema_str(&text).map(|(s, _)| s).map_err(short), &mut keep, "S"));
+        SchemaFragment::from_cedarschema_str(&text).map(|(f, _)| f).map_err(short)
+    };
+    match frag {
+        Err(e) => {
+            steps.insert("SC".into(), json!(["err", "fragment", e.clone()]));
+            steps.insert("SJ".into(), json!(["err", "fragment", e]));
+        }
+        Ok(frag) => {
+            match frag.to_cedarschema() {
+                Err(e) => {
+                    steps.insert("SC".into(), json!(["err", "translate", short(e)]));
+                }
+                Ok(t) => {
+                    steps.insert("SC".into(), loaded(Schema::from_cedarschema_str(&t).map(|(s, _)| s).map_err(short), &mut keep, "SC"));
+                    // and once more: the printer's output is a fixed point up to meaning
+                    if let Ok((f2, _)) = SchemaFragment::from_cedarschema_str(&t) {
+                        if let Ok(v) = f2.to_json_value() {
+                            steps.insert("SCJ".into(), loaded(Schema::from_json_value(v).map_err(short), &mut keep, "SCJ"));
+                        }
+                    }
+                }
+            }
+            match frag.to_json_value() {
+                Err(e) => {
+                    steps.insert("SJ".into(), json!(["err", "translate", short(e)]));
+                }
+                Ok(v) => {
+                    steps.insert("SJ".into(), loaded(Schema::from_json_value(v.clone()).map_err(short), &mut keep, "SJ"));
+                    if let Ok(f2) = SchemaFragment::from_json_value(v) {
+                        if let Ok(t) = f2.to_cedarschema() {
+                            steps.insert("SJC".into(), loaded(Schema::from_cedarschema_str(&t).map(|(s, _)| s).map_err(short), &mut keep, "SJC"));
+                        }
+                    }
+                }
+            }
+        }
+    }
+    if !is_json {
+        match cedar_policy::schema_str_to_json_with_resolved_types(&text) {
+            Err(e) => {
+                steps.insert("SR".into(), json!(["err", "translate", short(e)]));
+            }
+            Ok((v, _)) => {
+                steps.insert("SR".into(), loaded(Schema::from_json_value(v).map_err(short), &mut keep, "SR"));
+            }
+        }
+    }
+    let mut lib_eq = Map::new();
+    if let Some((l0, s0)) = keep.first() {
+        let v0: &ValidatorSchema = s0.as_ref();
+        for (l, s) in keep.iter().skip(1) {
+            let v: &ValidatorSchema = s.as_ref();
+            lib_eq.insert(format!("{l0}={l}"), json!(v0 == v));
+        }
+    }
+    Ok(json!({"ev": "SchemaFile", "file": path, "syntax": case["syntax"], "steps": steps, "lib_eq": lib_eq}))
+}
+
 pub fn run(case: &J) -> R<J> {
+    if case.get("file").is_some() {
+        return run_file(case);
+    }
     let s = &case["s"];
     let style = Style(case.get("style").and_then(|x| x.as_u64()).unwrap_or(0));
     // the renderings themselves are echoed only on request (replays): they are functions of (s, style)
